@@ -39,8 +39,14 @@ VarOf(t)   == Var(VarName(t))
 \* setup statement defining the variable of type t (nullable variables hold a value, so that accepted programs run)
 VarSetup(t) == Def(VarName(t), TRUE, TyStr(t), Lit(t.b))
 \* an expression of (static) type t in form "lit" or "var", with the setup it needs
-AtomE(t, form) == IF form = "lit" /\ ~t.q THEN Lit(t.b) ELSE IF t.b = "None" THEN NoneL ELSE VarOf(t)
-AtomSetup(t, form) == IF (form = "lit" /\ ~t.q) \/ t.b = "None" THEN <<>> ELSE <<VarSetup(t)>>
+\* forms: "lit", "var", and compound expressions of the same static type: "ife" (conditional expression of two literals),
+\* "neg" (negated literal; numeric types only, else the literal), "grp" (the literal in parentheses - the renderer parenthesises operands)
+AtomE(t, form) == IF form \in {"ife", "neg", "grp"} /\ ~t.q /\ t.b # "None"
+                  THEN (CASE form = "ife" -> IfE(BoolL(TRUE), Lit(t.b), Lit(t.b))
+                          [] form = "neg" -> IF t.b \in {"Int", "Float"} THEN Neg(Lit(t.b)) ELSE Lit(t.b)
+                          [] form = "grp" -> IF t.b = "Int" THEN Bin("+", Lit(t.b), Lit(t.b)) ELSE IF t.b = "Str" THEN Bin("+", Lit(t.b), Lit(t.b)) ELSE Lit(t.b))
+                  ELSE IF form \in {"lit", "ife", "neg", "grp"} /\ ~t.q THEN Lit(t.b) ELSE IF t.b = "None" THEN NoneL ELSE VarOf(t)
+AtomSetup(t, form) == IF (form \in {"lit", "ife", "neg", "grp"} /\ ~t.q) \/ t.b = "None" THEN <<>> ELSE <<VarSetup(t)>>
 
 Verdict(ok) == IF ok THEN "accept" ELSE "reject"
 
